@@ -291,6 +291,7 @@ def evaluate(rule, prog, roots, ledger, crates, prop, skip_kinds=SKIP_KINDS_DEFA
     reach = prog.reachable_fns(roots, stop=stop)
     parent = dict(prog.last_parent)
     used = set()
+    pending = []
     n_auto = n_ledger = 0
     for p in sorted(reach):
         fn = prog.fns[p]
@@ -308,10 +309,46 @@ def evaluate(rule, prog, roots, ledger, crates, prop, skip_kinds=SKIP_KINDS_DEFA
                 n_ledger += 1
                 rule.ok(s.key, 'ledger: ' + e['reason'])
                 continue
-            ch = prog.path_to(p, parent)
-            rule.finding('panic-site:%s' % s.key, s.span,
-                         'panic-capable site (%s %s) reachable from the entry points is neither auto-discharged nor in the ledger%s'
-                         % (s.kind, s.what, (' [ledger status: %s: %s]' % (e.get('status'), e.get('reason'))) if e else ''),
-                         ch[-6:])
-    rule.note('%d auto-discharged, %d by ledger, %d reachable functions' % (n_auto, n_ledger, len(reach)))
+            pending.append((s, p, e))
+    # Sites that are not in the ledger under their own key: before reporting, see whether they are ledger sites that moved - the function was
+    # renamed, or the statement went into / came out of a helper or a closure of the same module. A ledger entry whose own site no longer
+    # exists, with the same kind and the same panicking operation in the same module, is taken over (with its reason) once.
+    free = {}
+    present = set()
+    for p2 in reach:
+        fn2 = prog.fns[p2]
+        if fn2.crate.tag in crates:
+            for s2 in sites_of(fn2, skip_kinds):
+                present.add(s2.key)
+    for k, e in ledger.items():
+        if k not in present and e.get('status', 'safe') == 'safe':
+            parts = k.split('|')
+            if len(parts) >= 3:
+                free.setdefault((_module_of(parts[0]), parts[1], parts[2]), []).append(k)
+    n_moved = 0
+    for s, p, e in pending:
+        parts = s.key.split('|')
+        cand = free.get((_module_of(parts[0]), parts[1], parts[2]), []) if len(parts) >= 3 else []
+        if cand:
+            k = cand.pop(0)
+            used.add(k)
+            n_moved += 1
+            rule.ok(s.key, 'ledger (site moved from %s): %s' % (k.split('|')[0].rsplit('::', 1)[-1], ledger[k]['reason']))
+            continue
+        ch = prog.path_to(p, parent)
+        rule.finding('panic-site:%s' % s.key, s.span,
+                     'panic-capable site (%s %s) reachable from the entry points is neither auto-discharged nor in the ledger%s'
+                     % (s.kind, s.what, (' [ledger status: %s: %s]' % (e.get('status'), e.get('reason'))) if e else ''),
+                     ch[-6:])
+    rule.note('%d auto-discharged, %d by ledger (%d moved), %d reachable functions' % (n_auto, n_ledger, n_moved, len(reach)))
     return reach, used
+
+
+def _module_of(fnpath):
+    """module (or impl type) a function path belongs to: everything before the function's own name, closures and generic arguments stripped"""
+    import re as _re
+    p = _re.sub(r'::\{closure#\d+\}', '', fnpath)
+    p = _re.sub(r'::<[^<>]*(<[^<>]*>[^<>]*)*>', '', p)
+    if p.startswith('<') and ' as ' in p:
+        return p.split(' as ')[0].lstrip('<')
+    return p.rsplit('::', 1)[0]
